@@ -76,6 +76,8 @@ func cloneProof(p u.Proof) u.Proof {
 	return u.Proof{Targets: cloneU64(p.Targets), Proof: cloneHashes(p.Proof)}
 }
 
+func cloneProofTH(t []uint64, h []Hash) u.Proof { return u.Proof{Targets: cloneU64(t), Proof: cloneHashes(h)} }
+
 func eqHashes(a, b []Hash) bool {
 	if len(a) != len(b) {
 		return false
@@ -182,10 +184,14 @@ func (in *Inst) checkRoots(v *model.View) error {
 }
 
 func mkLeaves(first, n int, remember func(i int) bool) ([]u.Leaf, []Hash) {
+	return mkLeavesSalt(0, first, n, remember)
+}
+
+func mkLeavesSalt(salt, first, n int, remember func(i int) bool) ([]u.Leaf, []Hash) {
 	leaves := make([]u.Leaf, n)
 	hs := make([]Hash, n)
 	for i := 0; i < n; i++ {
-		hs[i] = model.LeafHash(first + i)
+		hs[i] = leafHashOf(salt, first+i)
 		leaves[i] = u.Leaf{Hash: hs[i]}
 		if remember != nil {
 			leaves[i].Remember = remember(i)
